@@ -26,6 +26,7 @@ import (
 	"strconv"
 	"strings"
 	"sync"
+	"sync/atomic"
 	"time"
 
 	"github.com/go-logr/zerologr"
@@ -60,7 +61,7 @@ type provider struct {
 	adc        admissioncontroller.AdmissionController
 	cancel     context.CancelFunc
 	configured bool
-	stopped    bool
+	stopped    atomic.Bool
 	wg         sync.WaitGroup
 	ac         string
 	id         string
@@ -176,11 +177,11 @@ func (p *provider) Start(ctx context.Context) error { //nolint:contextcheck
 }
 
 func (p *provider) Stop(ctx context.Context) error {
-	if !p.configured || p.stopped {
+	if !p.configured || p.stopped.Load() {
 		return nil
 	}
 
-	p.stopped = true
+	p.stopped.Store(true)
 	p.l.Info().Msg("Tearing down rule provider.")
 
 	p.cancel()
@@ -223,7 +224,7 @@ func (p *provider) filter(obj any) bool {
 }
 
 func (p *provider) addRuleSet(obj any) {
-	if p.stopped {
+	if p.stopped.Load() {
 		return
 	}
 
@@ -259,7 +260,7 @@ func (p *provider) addRuleSet(obj any) {
 }
 
 func (p *provider) updateRuleSet(oldObj, newObj any) {
-	if p.stopped {
+	if p.stopped.Load() {
 		return
 	}
 
@@ -302,7 +303,7 @@ func (p *provider) updateRuleSet(oldObj, newObj any) {
 }
 
 func (p *provider) deleteRuleSet(obj any) {
-	if p.stopped {
+	if p.stopped.Load() {
 		return
 	}
 
